@@ -38,6 +38,15 @@ def op(ev):
     return norm(ev.get('callee') or '').split('::')[-1]
 
 
+# the top of the heap in its source forms: _scheduled[0], _scheduled.front(), *_scheduled.begin()
+TOP = r'(?:_scheduled\[\]|call\(std::vector::front\)|\*\(call\(std::vector::begin\)\))'
+TOP_TP = TOP + r'\._tp$'
+
+
+def is_top_access(it):
+    return it.k == 'call' and norm(it.get('field') or '') == S and ((op(it) == 'operator[]' and (it.get('args') or [{}])[0].get('const') == 0) or op(it) == 'front')
+
+
 def heap_discipline(ctx, db):
     rid = ctx.rule('C12.heap-discipline', 'WHO+ORDER', 'the sleepers\' vector is mutated only as a heap: push_back followed by std::push_heap(compare_item) in schedule, std::pop_heap(compare_item) '
                    'followed by pop_back in pop_item; no erase/insert/clear/swap anywhere (they would break the heap order and with it the deadline order)', floor=4)
@@ -54,7 +63,7 @@ def heap_discipline(ctx, db):
             if o in FORBIDDEN_MUT:
                 ctx.ob(rid, f, e['loc'], False, '%s on the heap vector' % o, desc='%s on the sleepers heap in %s' % (o, f['nname']))
             elif o in HEAP_MUTATORS:
-                ctx.ob(rid, f, e['loc'], f['nname'] in HEAP_MUTATORS[o], '%s on the heap vector from %s' % (o, f['nname']), desc='%s on the sleepers heap in %s' % (o, f['nname']))
+                ctx.ob(rid, f, e['loc'], who_ok(db, f, HEAP_MUTATORS[o]), '%s on the heap vector from %s' % (o, f['nname']), desc='%s on the sleepers heap in %s' % (o, f['nname']))
     for name, first, second in (('cocls::scheduler::schedule', ('push_back', 'emplace_back'), 'std::push_heap'), ('cocls::scheduler::pop_item', ('std::pop_heap',), 'pop_back')):
         for f, trs in traces_of(db, name, depth=0, per_instance=False):
             trs = [t for t in trs if live(t)]
@@ -91,7 +100,7 @@ def _due_or_cancelled(tr, i):
         a = [x.get('path') or '' for x in ce.get('args', [])]
     m = re.search(r'operator(<=|>=|<|>)$', c)
     if m and len(a) == 2:
-        tp = [k for k, x in enumerate(a) if x.startswith('this->_scheduled[]') and x.endswith('._tp')]
+        tp = [k for k, x in enumerate(a) if re.search(TOP_TP, x)]
         nw = [k for k, x in enumerate(a) if x == 'param:now']
         if len(tp) == 1 and len(nw) == 1:
             o = m.group(1)
@@ -104,7 +113,7 @@ def _due_or_cancelled(tr, i):
                 return 'due-strict'
             return 'not-due'
     r = ce.get('recv') or ''
-    if r.startswith('this->_scheduled[]') and r.endswith('._p'):
+    if re.search(TOP + r'\._p$', r):
         if c == 'cocls::promise::operator!' and it.val is True:
             return 'cancelled'
         if c == 'cocls::promise::operator bool' and it.val is False:
@@ -137,8 +146,11 @@ def justified_pop(ctx, db):
         if npop == 0:
             raise Broken('get_expired_lk no longer pops: anchor changed')
         ctx.ob(rid, f, f['key'], bad is None, 'each pop justified by due-or-cancelled' + ('' if not bad else ' -- ' + bad[0]), desc=bad[0] if bad else None, trace=fmt_trace(bad[1]) if bad else None)
-        rets = [e for e in f.events() if e.k == 'return']
-        ctx.ob(rid, f, f['key'], len(rets) >= 3, 'get_expired_lk reports either a due promise, the next time point, or "nothing scheduled"', desc='get_expired_lk lost an outcome')
+        outcomes = set()
+        for tr in trs:
+            rp = resolve_select(ret_expr(tr) or '', tr) or ''
+            outcomes.add('next' if '_tp' in rp else ('nothing' if 'max' in rp else 'due'))
+        ctx.ob(rid, f, f['key'], outcomes >= {'due', 'next', 'nothing'}, 'get_expired_lk reports either a due promise, the next time point, or "nothing scheduled" (found %s)' % sorted(outcomes), desc='get_expired_lk lost an outcome')
 
 
 def nonempty(ctx, db):
@@ -167,7 +179,7 @@ def nonempty(ctx, db):
                         continue
                     if it.k == 'call' and norm(it.get('field') or '') == S:
                         o = op(it)
-                        if o == 'operator[]' and (it.get('args') or [{}])[0].get('const') == 0:
+                        if is_top_access(it):
                             sites.add(it['loc'])
                             if not fact:
                                 badsite.setdefault(it['loc'], tr)
@@ -202,14 +214,14 @@ def schedule_notifies(ctx, db):
                         was_empty = bool(it.val)
                     if re.fullmatch(r'local:\w+', it.get('opath') or it.path or '') and it.term == 'IfStmt':
                         flag = bool(it.val)
-            cmp_after = [it for it in tr[pb:] if it.k == 'call' and norm(it.get('field') or '') == S and op(it) == 'operator[]'] if pb >= 0 else []
+            cmp_after = [it for it in tr[pb:] if is_top_access(it)] if pb >= 0 else []
             if pb < 0:
                 bad = bad or ('the entry is not inserted', tr); continue
             # direction of the decision: the worker must be woken when the current top is LATER than the new entry
             for it in tr[:pb]:
                 if it.k == 'cmp' and it.get('op') in ('<', '>', '<=', '>='):
                     l_, r_ = it.get('lhs') or '', it.get('rhs') or ''
-                    top_l = bool(re.search(r'_scheduled\[\]\._tp$', l_)); top_r = bool(re.search(r'_scheduled\[\]\._tp$', r_))
+                    top_l = bool(re.search(TOP_TP, l_)); top_r = bool(re.search(TOP_TP, r_))
                     if top_l == top_r:
                         continue
                     later = it['op'] in ('>', '>=') if top_l else it['op'] in ('<', '<=')
@@ -225,7 +237,7 @@ def schedule_notifies(ctx, db):
                     bad = bad or ('the worker is not notified although the new entry is the earliest', tr)
         if nn == 0 and not bad:
             bad = ('no path notifies the worker', trs[0] if trs else [])
-        if not bad and not any(it.k == 'cmp' and re.search(r'_scheduled\[\]\._tp$', (it.get('lhs') or '')) != re.search(r'_scheduled\[\]\._tp$', (it.get('rhs') or '')) and (re.search(r'_scheduled\[\]\._tp$', (it.get('lhs') or '')) or re.search(r'_scheduled\[\]\._tp$', (it.get('rhs') or ''))) for tr in trs for it in tr):
+        if not bad and not any(it.k == 'cmp' and re.search(TOP_TP, (it.get('lhs') or '')) != re.search(TOP_TP, (it.get('rhs') or '')) and (re.search(TOP_TP, (it.get('lhs') or '')) or re.search(TOP_TP, (it.get('rhs') or ''))) for tr in trs for it in tr):
             raise Broken('schedule: the comparison of the new entry with the top of the heap was not recognised')
         ctx.ob(rid, f, f['key'], bad is None, 'decide before insert, notify when earliest' + ('' if not bad else ' -- ' + bad[0]), desc=bad[0] if bad else None, trace=fmt_trace(bad[1]) if bad else None)
 
@@ -237,7 +249,8 @@ def no_window(ctx, db):
     fns = db.fns('cocls::scheduler::worker_coro')
     if not fns:
         raise Broken('anchor vanished: scheduler::worker_coro')
-    T = Tracer(db, depth=1, inline_filter=lambda c, e, callee: bool(callee.get('lambda')), maxvisit=2, limit=20000)
+    # local lambdas (std::visit arms) and the scheduler's own helpers that wait on its condition variable; get_expired_lk stays a call (it is the anchor)
+    T = Tracer(db, depth=3, inline_filter=lambda c, e, callee: bool(callee.get('lambda')) or (is_helper(db, c, callee) and callee['nname'] != 'cocls::scheduler::get_expired_lk' and any(x.k == 'call' and norm(x.get('callee') or '').startswith('std::condition_variable::wait') for x in callee.events())), maxvisit=2, limit=20000)
     seen = set()
     for f in fns:
         if f['inst'] in seen:
